@@ -16,7 +16,7 @@ import (
 
 var sPure = map[string]bool{"Start": true, "End": true, "Step": true, "Dims": true, "Shape": true, "Strides": true,
 	"IsVector": true, "IsScalarEquiv": true, "IsScalar": true, "oshape": true, "ostrides": true, "Size": true, "len": true, "IsRowMajor": true, "IsColMajor": true,
-	"oldAP": true, "IsZero": true, "DataOrder": true, "IsMaterializable": true, "RequiresIterator": true, "IsView": true, "IsMasked": true, "IsContiguous": true, "IsNotContiguous": true, "HasSameOrder": true, "Info": true, "Dtype": true, "transposeAxes": true, "parentTensor": true}
+	"oldAP": true, "IsZero": true, "DataOrder": true, "IsMaterializable": true, "RequiresIterator": true, "IsView": true, "IsMasked": true, "IsContiguous": true, "IsNotContiguous": true, "IsTransposed": true, "IsRowVec": true, "IsColVec": true, "HasSameOrder": true, "Info": true, "Dtype": true, "transposeAxes": true, "parentTensor": true}
 
 func sCanon(rc *RC, fi *load.FuncInfo) (*ir.Canon, []*ir.Node) {
 	c := ir.NewCanon(rc.P.Fset, fi.Pkg.TypesInfo, ir.Options{ParamNames: true, KeepNames: true, PureCall: func(n string) bool { return sPure[n] }})
@@ -211,6 +211,7 @@ func S2(rc *RC) {
 			continue
 		}
 		var bad []string
+		var other []string
 		for _, p := range paths {
 			if p.Exit != "return" {
 				bad = append(bad, "path without return")
@@ -226,8 +227,34 @@ func S2(rc *RC) {
 				okRet = true
 			}
 			if !okRet {
-				bad = append(bad, fmt.Sprintf("returns %q on path %s; every offset must come from %s", p.Ret, p.String(), want[0]))
+				if strings.Contains(p.Ret, "Ltoi(") || strings.Contains(p.Ret, ".at(") {
+					bad = append(bad, fmt.Sprintf("returns %q on path %s; every offset must come from %s", p.Ret, p.String(), want[0]))
+				} else if m := directCoord.FindStringSubmatch(p.Ret); m != nil {
+					// a coordinate handed out as the offset itself: both of its bounds must be on the path
+					f := ir.PathFormulas(p)
+					c := "$coords[" + m[1] + "]"
+					lower := ir.Implies(f, ir.ParseBool("("+c+" >= 0)"))
+					upper := false
+					for _, fm := range f {
+						for _, a := range fm.Atoms() {
+							if strings.HasPrefix(a, "("+c+" >= ") && a != "("+c+" >= 0)" && ir.Implies(f, ir.BNot(ir.BAtom(a))) {
+								upper = true
+							}
+						}
+					}
+					if !lower || !upper {
+						bad = append(bad, fmt.Sprintf("returns the coordinate %s as the offset on path [%s] without establishing both of its bounds (0 <= %s < dimension)", c, strings.Join(p.Guards, " && "), c))
+					} else {
+						other = append(other, fmt.Sprintf("returns %q on path [%s]: an offset computed without Ltoi (its bounds are checked), not compared with Ltoi", p.Ret, strings.Join(p.Guards, " && ")))
+					}
+				} else {
+					other = append(other, fmt.Sprintf("returns %q on path [%s]: an offset computed without Ltoi, which this rule does not compare with it", p.Ret, strings.Join(p.Guards, " && ")))
+				}
 			}
+		}
+		if len(bad) == 0 && len(other) > 0 {
+			rc.S.Undec("S2", key, pos, other[0])
+			continue
 		}
 		if len(bad) > 0 {
 			rc.S.Viol("S2", key, pos, strings.Join(bad, "\n")).Sig = fmt.Sprint(len(bad)) + " deviating returns"
@@ -236,6 +263,8 @@ func S2(rc *RC) {
 		}
 	}
 }
+
+var directCoord = regexp.MustCompile(`^\$coords\[(\d+)\], nil$`)
 
 // S3: validator clause set.
 func S3(rc *RC) {
@@ -304,6 +333,16 @@ func S3(rc *RC) {
 					final[st.Target] = st.Value
 					if st.Value == "CheckSlice($s, $size)" {
 						checked = true
+					}
+				}
+			}
+			// explicit `return a, b, c, err` instead of assignments to the named results
+			if p.Exit == "return" && p.Ret != "" {
+				if parts := splitArgs(p.Ret); len(parts) == 4 {
+					env := pathEnv(p)
+					for i, v := range parts {
+						v = substEnv(v, env)
+						final[fmt.Sprintf("$ret%d", i)] = v
 					}
 				}
 			}
@@ -749,7 +788,10 @@ func S11(rc *RC) {
 // (strides[i] = acc; acc *= shape[i], acc starting at 1), opposite loop direction.
 func S10(rc *RC) {
 	rc.S.Declare("S10", "stride calculators mirror: CalcStrides (last axis first) and CalcStridesColMajor (first axis first) run the same recurrence strides[i] = acc; acc = acc*shape[i] from acc = 1", 1)
-	type form struct{ init, head, body, pos string }
+	type form struct {
+		init, head, body, pos string
+		early                []string
+	}
 	get := func(key string) (form, bool) {
 		fi := anchor(rc, "S10", key)
 		if fi == nil {
@@ -758,12 +800,39 @@ func S10(rc *RC) {
 		_, tree := sCanon(rc, fi)
 		var f form
 		f.pos = rc.P.Pos(fi.Decl.Pos())
+		// early exits before the recurrence: only the scalar shape may leave without one
+		// stride per axis (a vector special case returning a single stride was finding 64)
+		for _, n := range tree {
+			if n.Kind == "loop" || n.Kind == "range" {
+				break
+			}
+			if n.Kind != "if" {
+				continue
+			}
+			ret := false
+			for _, k := range flatten([]*ir.Node{n}) {
+				if k.Kind == "ret" {
+					ret = true
+				}
+			}
+			if ret && n.Head != "$r.IsScalar()" {
+				f.early = append(f.early, n.Head)
+			}
+		}
 		for i, n := range tree {
 			if n.Kind == "loop" {
 				f.head = n.Head
 				f.body = ir.Render(n.Kids)
 				if i >= 2 {
 					f.init = tree[i-2].Head + " ; " + tree[i-1].Head
+				}
+			}
+			if n.Kind == "range" && n.Head == "range $r as @r" {
+				// `for i := 0; i < len(s); i++` in canonical form: the first-axis-up walk
+				f.head = "for (len($r) > %i) ; %i = (%i + 1)"
+				f.body = ir.ReplaceWord(ir.Render(n.Kids), "@r", "%i")
+				if i >= 1 {
+					f.init = tree[i-1].Head + " ; %i = 0"
 				}
 			}
 		}
@@ -783,6 +852,12 @@ func S10(rc *RC) {
 	}
 	if norm(r.body) != norm(wantBody) && norm(c.body) != norm(wantBody) {
 		bad = append(bad, "neither body is the recurrence strides[i] = acc; acc = acc*shape[i]: "+strings.ReplaceAll(r.body, "\n", " ; "))
+	}
+	for _, e := range r.early {
+		bad = append(bad, "CalcStrides leaves before the recurrence under "+e+": only a scalar shape has no strides; every other shape gets one stride per axis")
+	}
+	for _, e := range c.early {
+		bad = append(bad, "CalcStridesColMajor leaves before the recurrence under "+e+": only a scalar shape has no strides; every other shape gets one stride per axis")
 	}
 	if r.init != "%acc = 1 ; %i = (len($r) - 1)" || r.head != "for (%i >= 0) ; %i = (%i - 1)" {
 		bad = append(bad, "CalcStrides does not run from the last axis down with acc = 1: "+r.init+" ; "+r.head)
@@ -856,6 +931,36 @@ func S12(rc *RC) {
 			}
 		}
 	}
+	// the same decision written as a default plus one override
+	if outer == "" {
+		isLast := func(v string) bool {
+			return v == "(len($r.shape) - 1)" || v == "($r.Dims() - 1)" || v == "($r.shape.Dims() - 1)"
+		}
+		want := normAtomsGeneral(ir.ParseBool("(!$r.o.IsColMajor() || $r.IsVector())"))
+		defaults := map[string]string{}
+		for _, n := range tree {
+			if n.Kind == "let" {
+				defaults[n.Target] = n.Value
+			}
+			if n.Kind != "if" || len(n.Kids) != 1 || len(n.Else) != 0 || n.Kids[0].Kind != "let" {
+				continue
+			}
+			x := n.Kids[0]
+			d, ok := defaults[x.Target]
+			if !ok {
+				continue
+			}
+			cond := normAtomsGeneral(ir.ParseBool(n.Head))
+			switch {
+			case x.Value == "0" && isLast(d):
+				outer = x.Target
+				outerOK = ir.Implies([]*ir.BExpr{cond}, want) && ir.Implies([]*ir.BExpr{want}, cond)
+			case isLast(x.Value) && d == "0":
+				outer = x.Target
+				outerOK = ir.Implies([]*ir.BExpr{cond}, ir.BNot(want)) && ir.Implies([]*ir.BExpr{ir.BNot(want)}, cond)
+			}
+		}
+	}
 	// the marker statements and their guards
 	var guards []*ir.BExpr
 	orderVar := ""
@@ -884,7 +989,9 @@ func S12(rc *RC) {
 		rc.S.Viol("S12", key+"#marker", pos, "the axis loop never marks the result NonContiguous").Sig = "no marker"
 		return
 	}
-	if outer == "" || !outerOK {
+	if outer == "" {
+		rc.S.Undec("S12", key+"#outer-axis", pos, "no variable is recognised as the outermost axis (neither `if c {x = 0} else {x = last}` nor a default with one override)")
+	} else if !outerOK {
 		rc.S.Viol("S12", key+"#outer-axis", pos, fmt.Sprintf("the outermost axis (%s) is not 0 for row-major tensors and vectors and len(shape)-1 otherwise", outer)).Sig = "outer axis"
 	} else {
 		rc.S.Ok("S12", key+"#outer-axis", pos, outer+" = 0 if row-major or vector, else len(shape)-1")
@@ -1436,3 +1543,4 @@ func S20(rc *RC) {
 		}
 	}
 }
+func SPure(n string) bool { return sPure[n] }
